@@ -9,6 +9,7 @@ struct ResetRun : NodeEnv {
     bool split = false; uint8_t defId = 1; std::vector<int> appTimers; std::vector<ObjSpec> base;
     std::vector<std::pair<uint8_t, uint16_t>> emcyTbl = {{1, 0x2100}, {2, 0x3100}, {1, 0x2200}};
     uint8_t *cbuf[2][CO_CSDO_N];
+    bool armCb = false, cbFired = false; int cbType = 0; size_t cbMk = 0, cbMk2 = 0;   // reset requested by the application from inside CONmtHbConsEvent
     ResetRun(const Plan &p, Cov &c, bool vb) : NodeEnv(p, c, vb) { memset(cbuf, 0, sizeof cbuf); }
     ~ResetRun() { for (auto &a : cbuf) for (auto &b : a) free(b); }
     static void appCb(void *) {}
@@ -33,6 +34,15 @@ struct ResetRun : NodeEnv {
         NodeCfg cfg; cfg.nodeId = defId; cfg.freq = freq; cfg.tmrNum = 32;
         w.build(0, cfg, base, {}, emcyTbl); w.init(0); w.start(0);
         if (CONodeGetErr(w.N(0)) != CO_ERR_NONE) fail("setup/node-error", "node reports an error after initialisation");
+        // application code inside CONmtHbConsEvent: a device that restarts its communication when its master's heartbeat is lost.
+        // The reset runs inside COTmrProcess (timer callback -> CONmtHbConsMonitor -> CONmtHbConsEvent); node B is created at that very instant.
+        w.onHbConsEvent = [this](uint8_t) {
+            if (!armCb || split || w.cur != 0) return;
+            armCb = false; w.s[0].sendFail = 0; cbMk = w.evs.size();
+            CONmtReset(&w.N(0)->Nmt, cbType ? CO_RESET_NODE : CO_RESET_COM);
+            if (CONmtGetMode(&w.N(0)->Nmt) != CO_PREOP) return;
+            cbFired = true; split = true; cbMk2 = w.evs.size(); makeB(); w.cur = 0;
+        };
     }
     // fresh node B holding A's dictionary values
     void makeB() {
@@ -98,9 +108,22 @@ struct ResetRun : NodeEnv {
                 compare(a, b, "the reset itself");
                 return;
             }
+            if (o.k == "cbreset") {
+                // arm the callback script, then let time pass tick by tick: the reset (and the birth of B) happens inside one of these ticks
+                cbType = (int)o.arg(0); int n = (int)(o.arg(1) % 80) + 1, lag = (int)(o.arg(2) % 4); armCb = true; (void)w.mark(); int i = 0;
+                for (; i < n && !split; i++) { if (lag && i % (lag + 1) != lag) w.isr(0); else w.tick(0, 1); }
+                if (!split && lag) w.process(0);
+                armCb = false; safety(); if (!v.ok) return;
+                if (!split) { cov.hit("callback-reset-armed-but-no-heartbeat-loss"); return; }
+                nontrivial = true; cov.hit(cbType ? "reset-node-inside-hbcons-callback" : "reset-communication-inside-hbcons-callback");
+                Obs a = observe(cbMk, 0), b = observe(cbMk2, 1); a.ev.erase(std::remove_if(a.ev.begin(), a.ev.end(), [](const std::string &x) { return x.rfind("csdo-done", 0) == 0; }), a.ev.end());
+                compare(a, b, "the reset itself (called from inside CONmtHbConsEvent)"); if (!v.ok) return;
+                Op rest("tick", {(int64_t)(n - i)}); if (n - i > 0) { size_t mkA = w.mark(); (void)apply(rest, 0); Obs a2 = observe(mkA, 0); size_t mkB = w.mark(); (void)apply(rest, 1); Obs b2 = observe(mkB, 1); safety(); if (!v.ok) return; compare(a2, b2, "ticks after the reset from inside the callback"); }
+                return;
+            }
             size_t mk = w.mark(); (void)apply(o, 0); (void)mk; safety(); return;
         }
-        if (o.k == "reset" || o.k == "apptmr") return;
+        if (o.k == "reset" || o.k == "apptmr" || o.k == "cbreset") return;
         size_t mkA = w.mark(); int ra = apply(o, 0); Obs a = observe(mkA, 0);
         size_t mkB = w.mark(); int rb = apply(o, 1); Obs b = observe(mkB, 1);
         safety(); if (!v.ok) return;
@@ -129,7 +152,7 @@ struct ResetRun : NodeEnv {
         build();
         for (opi = 0; opi < (int)plan.ops.size() && v.ok; opi++) {
             const Op &o = plan.ops[(size_t)opi]; w.opIndex = (uint32_t)opi; cov.ops++;
-            if (!split && o.k == "reset") { // abstract state of A at the reset: per service idle/busy, timers armed, producer on/off
+            if (!split && (o.k == "reset" || o.k == "cbreset")) { // abstract state of A at the reset: per service idle/busy, timers armed, producer on/off
                 CO_NODE *n = w.N(0); Hash h; h.u64((uint64_t)n->Nmt.Mode); h.u64(n->Sdo[0].Obj != 0); h.u64((uint64_t)n->Sdo[0].Blk.State); h.u64(n->CSdo[0].State == CO_CSDO_STATE_BUSY); h.u64(n->Nmt.Tmr >= 0); h.u64(n->Sync.Tmr >= 0); h.u64(n->Lss.Mode); h.u64(n->TPdo[0].Flags); h.u64((uint64_t)COEmcyCnt(&n->Emcy)); int chain = 0; for (CO_HBCONS *c = n->Nmt.HbCons; c && chain < 8; c = c->Next) chain += c->Tmr >= 0 ? 2 : 1; h.u64((uint64_t)chain); h.u64((uint64_t)w.tmrUsedActions(0)); cov.states.insert(h.h); trace.u64(h.h); }
             op(o);
             Hash h; h.str(o.k); h.u64(split); if (o.k == "frame") h.u64((uint64_t)o.arg(0) & 0x780); cov.pairs.insert(h.h); trace.u64(h.h);
@@ -177,6 +200,11 @@ Plan gen_reset(Rng &r, bool thorough) {
     if (r.chance(4, 5)) p.ops.push_back(Op("frame", {0, 2}, {1, 0}));
     int h = (int)r.range(0, thorough ? 60 : 30); for (int i = 0; i < h; i++) gen_traffic(r, p.ops, false);
     if (r.chance(1, 3)) p.ops.push_back(Op("isr", {r.chance(1, 2) ? r.range(0, 10) : r.range(50, 399)}));   // the reset request meets timers that have elapsed but were not processed yet
+    if (r.chance(1, 5)) {   // the application resets the node from inside CONmtHbConsEvent (heartbeat of a monitored node lost)
+        if (r.chance(3, 4)) p.ops.push_back(sdoWr(0x1016, (uint8_t)r.range(1, 2), (uint32_t)r.pick<uint32_t>({20, 21}) << 16 | r.pick<uint32_t>({5, 10, 30}), 4));
+        int k = (int)r.range(1, 3); for (int i = 0; i < k; i++) { p.ops.push_back(Op("frame", {0x700 + r.pick<int64_t>({20, 21}), 1}, {r.pick<uint8_t>({5, 127})})); if (r.chance(1, 2)) p.ops.push_back(Op("tick", {r.range(1, 9)})); }
+        p.ops.push_back(Op("cbreset", {(int64_t)r.chance(1, 4), r.range(10, 79), r.chance(1, 3) ? r.range(1, 3) : 0}));
+    }
     p.ops.push_back(Op("reset", {(int64_t)r.chance(1, 4)}));
     int q = (int)r.range(3, thorough ? 50 : 25); for (int i = 0; i < q; i++) { if (i == 1 && r.chance(2, 3)) p.ops.push_back(Op("frame", {0, 2}, {1, 0})); gen_traffic(r, p.ops, true); }
     p.ops.push_back(Op("tick", {120}));
